@@ -47,7 +47,7 @@ func c12Fragment(seqNr uint32, t0 uint64, nSamples int, base byte) (*Fragment, u
 
 // c12Build: init + media built with the real constructors. layout: one character per
 // fragment, 'S' = preceded by styp (new segment), 'f' = further fragment of the segment,
-// 'N' = fragment without styp before it; optional suffix 'M' = mfra at the end (one tfra entry
+// 'D' = like 'S' but with two segment-level sidx boxes after the styp, 'N' = fragment without styp before it; optional suffix 'M' = mfra at the end (one tfra entry
 // per segment), 'E' = emsg before the first fragment.
 func c12Build(layout string) *c12File {
 	cf := &c12File{}
@@ -81,15 +81,24 @@ func c12Build(layout string) *c12File {
 		if i+1 < len(layout) && layout[i+1] == 'E' {
 			f.AddEmsg(&EmsgBox{Version: 1, TimeScale: 90000, PresentationTime: 5, ID: 7, SchemeIDURI: "urn:x", Value: "1"})
 		}
-		newSeg := c == 'S' || (c == 'N' && len(cf.segFrags) == 0)
+		newSeg := c == 'S' || c == 'D' || (c == 'N' && len(cf.segFrags) == 0)
 		if newSeg {
 			segStarts = append(segStarts, uint64(len(out)))
 			segTimes = append(segTimes, t)
 			cf.segFrags = append(cf.segFrags, 0)
 			cf.segDur = append(cf.segDur, 0)
 		}
-		if c == 'S' {
+		if c == 'S' || c == 'D' {
 			out = append(out, encBox(CreateStyp())...)
+		}
+		if c == 'D' {
+			// two segment-level sidx boxes (as in a muxed segment with one index per track)
+			for k := 0; k < 2; k++ {
+				sx := CreateSidx(0)
+				sx.ReferenceID, sx.Timescale = uint32(k+1), 90000
+				sx.SidxRefs = []SidxRef{{ReferencedSize: uint32(f.Size()), SubSegmentDuration: 1, StartsWithSAP: 1, SAPType: 1}}
+				out = append(out, encBox(sx)...)
+			}
 		}
 		var fb bytes.Buffer
 		if err := f.Encode(&fb); err != nil {
@@ -233,6 +242,9 @@ func VerifC12Sidx(layout string, add bool, nonZeroEPT bool, existing bool) {
 	boxes := c12TopLevel(out)
 	sidxIdx := -1
 	for i, b := range boxes {
+		if b.typ == "styp" || b.typ == "moof" {
+			break // only a sidx before the first segment is the top-level index
+		}
 		if b.typ == "sidx" {
 			sidxIdx = i
 			break
